@@ -8,6 +8,7 @@ import Vgw.Driver.Policy
 import Vgw.Driver.BucketName
 import Vgw.Driver.Path
 import Vgw.Driver.Walk
+import Vgw.Driver.Chunk
 
 structure DriverState where
   gw : Vgw.Driver.Gw.DState := {}
@@ -20,6 +21,7 @@ def dispatch (d : DriverState) (line : String) : DriverState × String :=
     ({ d with gw := g }, out.getD "bad-op")
   | "path" :: rest => (d, (Vgw.Driver.Path.handle rest).getD "bad-op")
   | "walk" :: rest => (d, (Vgw.Driver.Walk.handle rest).getD "bad-op")
+  | "chunk" :: rest => (d, (Vgw.Driver.Chunk.handle rest).getD "bad-op")
   | "bucketname" :: rest => (d, (Vgw.Driver.BucketName.handle rest).getD "bad-op")
   | "glob" :: rest => (d, (Vgw.Driver.Policy.globHandle rest).getD "bad-op")
   | "policy" :: rest => (d, (Vgw.Driver.Policy.handle rest).getD "bad-op")
